@@ -146,6 +146,11 @@ func (g *GuaranteeController) ValidateSignatures() error {
 					err := ReportsErrorCode.WrongAssignment
 					return &err
 				}
+				// Φ replaced the key of an offender by the null key: such a validator cannot guarantee
+				if guranatorAssignments.PublicKeys[sig.ValidatorIndex].Ed25519 == (types.Ed25519Public{}) {
+					err := ReportsErrorCode.BannedValidator
+					return &err
+				}
 				publicKey := guranatorAssignments.PublicKeys[sig.ValidatorIndex].Ed25519[:]
 				if !ed25519consensus.Verify(publicKey, message, sig.Signature[:]) {
 					err := ReportsErrorCode.BadSignature
